@@ -514,15 +514,17 @@ theorem parseHead_err {o : Opts} {mf p : Nat} {blk : Bytes} {e : Nat}
         simp at h; subst h
         rcases parseReqline_err he with h1 | h1 <;> (unfold RejSt; omega)
       · split at h
-        · rename_i e' he
-          simp at h; subst h
-          rcases parseHeaders_err he with h1 | h1 <;> (unfold RejSt; omega)
+        · simp at h; subst h; unfold RejSt; omega
         · split at h
           · rename_i e' he
             simp at h; subst h
-            rcases parsePost_err he with h1 | h1 <;> (unfold RejSt; omega)
-          · simp at h
-          · simp at h
+            rcases parseHeaders_err he with h1 | h1 <;> (unfold RejSt; omega)
+          · split at h
+            · rename_i e' he
+              simp at h; subst h
+              rcases parsePost_err he with h1 | h1 <;> (unfold RejSt; omega)
+            · simp at h
+            · simp at h
 
 
 /-! ### statuses of rejections at connection level -/
